@@ -79,6 +79,22 @@ class LazySeq:
         return len(self._items)
 
 
+class Probe:
+    """Logging callable with a stable text form."""
+
+    def __init__(self, world, ident, ret):
+        self._world, self._ident, self._ret = world, ident, ret
+
+    def __call__(self):
+        self._world.point(self._ident)
+        return self._world.build(self._ret)
+
+    def __repr__(self):
+        return '<probe %s>' % (self._ident,)
+
+    __str__ = __repr__
+
+
 class World:
     def __init__(self, mode, syntax='dtml', style=None, faults=None,
                  template_factory=None):
@@ -120,11 +136,7 @@ class World:
             ident, ret = spec[1], spec[2]
             world = self
 
-            def probe():
-                world.point(ident)
-                return world.build(ret)
-            probe.__name__ = 'probe_%s' % ident
-            return probe
+            return Probe(world, ident, ret)
         if k == 'raiser':
             ident, en, msg = spec[1], spec[2], spec[3]
             world = self
